@@ -13,7 +13,7 @@ CHECKS = {
  "C03": "Every history (bounded length) of Handle/Remove/Clean/Prefix.Clean/Resource.Clean over ten scenarios is explored by forking on operation selectors; before every step and after the last one Routes() and strict URL building of every live and removed pattern are compared with a table model, every pattern's witness request with 5 methods is compared with the documented resolution over the live table, and the same symbolic request is served before and after the step (2-safety: a removal must not change a request that was dispatched to a route the step does not name).",
  "C04": "Every bounded history over four operation alphabets built to split nodes after methods were registered, with and without WithTrace and in both map iteration orders: for every live pattern the Allow header of OPTIONS and of 405 (read through the node the builder captured), Node().Methods()/AllowHeader() and Routes() must equal the documented set, for every request reaching the route (symbolic parameter values); OPTIONS * is checked on every state including the brand-new router. Mostly selector-driven: an exhaustive bounded exploration of the real SSA with small solver queries.",
  "C05": "Every potential runtime fault (index, slice bound, nil dereference, nil map write, failed type assertion, nil call) on every symbolic path is raised by the executor and reported if it can escape: Router.ServeHTTP with arbitrary path and method bytes on 8 table histories, Group.ServeHTTP with Hosts/version/And matchers, Hosts.Match, the path-version matcher, and CheckSyntax/URL/Router.URL/Handle on every pattern string up to the bound (Handle must register or panic with an error value and agree with CheckSyntax).",
- "C08": "HEAD vs GET with the handler's write sizes as symbolic 64-bit ints: z3 decides that Content-Length equals the sum of the sizes written, that no body byte reaches the client and that status and headers equal GET's; all bounded histories of adding/removing GET/POST/DELETE with removal lists containing HEAD, OPTIONS and the empty string against the table model; Handle with every method string up to the bound.",
+ "C08": "HEAD vs GET with the handler's write sizes as symbolic 64-bit ints: z3 decides that Content-Length equals the sum of the sizes written, that no body byte reaches the client and that status and headers equal GET's - also when the handler deletes or overwrites Content-Length between writes or first sends an informational 1xx response; all bounded histories of adding/removing GET/POST/DELETE with removal lists containing HEAD, OPTIONS and the empty string against the table model; Handle with every method string up to the bound.",
  "C17": "One Handle call (pattern pool incl. name/'-'/rule variants and malformed patterns x method lists incl. reserved, duplicate and arbitrary method strings) on five tables (optionally after an earlier rejected call); for a rejected call Routes(), all Allow headers and the outcome of the same symbolic request are compared before/after (2-safety); the accept/reject clauses are checked against an independent shape comparison.",
  "C06": "Router with WithLock(true): writer x reader pairs (and triples) run as logical threads inside the symbolic executor; the schedule is a symbolic choice taken at every lock operation, so all interleavings at synchronisation granularity are explored, and a vector-clock happens-before monitor watches every heap access the interpreted mux code makes (field/element granularity, whole-map granularity for maps): two conflicting accesses unordered by happens-before are a data race. Each response must be admissible for some sequential state. Races are confirmed natively under go test -race before they are reported.",
  "C07": "Sequential isolation: a brand-new router's answers are compared before and after every bounded sequence of operations on other routers, a Hosts matcher and a Group; pooled contexts: consecutive requests with symbolic paths must each see exactly their own parameters (C01 oracle); concurrency: distinct instances mutated in parallel and parallel requests on a quiescent router (with/without WithLock) run as logical threads under the happens-before monitor.",
